@@ -8,6 +8,20 @@ states, generic atoms) is enumerated completely.
            beta_CHA <= beta_(k+1) <= beta_k, beta_k+PPT <= beta_k, beta_boson <= beta_plain, beta_k+PPT <= beta_PPT <= beta_DM,
            beta_1 == beta_DM, beta_1+PPT == beta_PPT  (solver tolerance 1e-4*(1+beta), DESIGN 3.2).
   inner  : outputs of the inner models at *lattice* parameter points (no optimiser) are fed to the outer criteria.
+Audit wave (option axes, argument forms, histories):
+  thresh : dm_norm= forms (python float, 1-d / 2-d batch, size-1 array and 0-d array broadcast), representatives on and beyond the
+           state-space boundary, all five dimension pairs in the quick tier.
+  order  : return_info=True of the boundary SDP (vecA is the boundary point, |vecN| = 1, vecN supports the convex set against the CHA
+           product states and the boundary points of the other directions / stronger variants), single item / list / real float64 input,
+           non-PSD representatives, k=1 with use_boson=True, is_ABk_symmetric_ext on both sides of the reported boundary (declared
+           sub-grid), CHA product states fed to is_ppt / exact PPT boundary, generalized-PPT boundary between CHA and PPT, the
+           numerical-range SDPs with the Gell-Mann basis as op_list.
+  inner  : every inner model against lists of outer tests (bosonic and plain, with PPT for separable states), PureBosonicExt k=4,
+           SymmetricExtABkIrrepModel, the naive (swap-constraint) formulation at 2x2.
+  cha_hist : CHABoundaryBagging re-use histories x num_init_retry x maxiter x use_tqdm x return_info.
+  cheap outer tests: separable-by-construction states (AutodiffCHAREE incl. num_state=2 on 2x2, 2x3, 3x3; CHA product states and
+           recombined boundary points) against is_ppt, is_generalized_ppt, check_reduction_witness, check_swap_witness with default eps.
+           (PureBosonicExt states are k-extendible, not separable: these criteria need not accept them.)
 """
 import itertools
 
@@ -21,16 +35,32 @@ GUARD_LAYOUT = ['numqi.entangle._misc', 'numqi.gellmann', 'numqi.entangle.ppt.ge
 LEVEL = 'model_checking'
 RULE = ('state = (dimension pair, direction of the alphabet, method variant) or (inner model, lattice parameter point); the direction '
         'alphabet x variant product is enumerated completely; transition = one boundary / criterion evaluation compared with an '
-        'independent eigenvalue computation or with the other methods on the same direction; non-trivial = distinct rounded boundary tuples')
+        'independent eigenvalue computation or with the other methods on the same direction; non-trivial = distinct rounded boundary tuples. '
+        'Option axes enumerated on top: dm_norm argument forms and boundary / non-PSD representatives (thresh, all 5 dimension pairs); '
+        'return_info (dual branch: boundary point and supporting hyperplane), single / list / real-float64 input forms, k=1 bosonic, '
+        'feasibility probes rho(beta_k(1-+1e-3)) on a declared direction x variant sub-grid, CHA product states against the outer tests, '
+        'generalized-PPT and numerical-range boundaries (order); outer-test lists (k, boson, ppt) and the naive formulation per inner model '
+        '(inner); CHABoundaryBagging history {fresh, re-used with num_init_retry 10 / 0} x maxiter {0,3} x use_tqdm x return_info on direction '
+        'pairs (cha_hist; a fresh object with num_init_retry=0 has no bag and is not a configuration); every state that is separable by '
+        'construction (AutodiffCHAREE lattice states incl. the rank-deficient num_state=2,3 bags, CHA product states and recombined boundary '
+        'points) is fed to is_ppt / is_generalized_ppt / check_reduction_witness / check_swap_witness (dimA=dimB) with default thresholds')
 ASSUMPTIONS = [
     'solver accuracy band 1e-4*(1+beta) for SDP/LP optima (DESIGN 3.2: measured excess of a +PPT optimum over the exact PPT boundary 7e-6)',
     'threshold sides are probed at relative distance delta in {1e-6, 1e-3}; the eigenvalue there is +-delta/N, far above eps',
     'cvxpy SolverError escaping the library = solver_failed (listed, neither pass nor violation); cases over the wall-clock cap are listed as capped',
+    'a feasibility verdict on the inside probe rho(beta_k(1-1e-3)) counts as wrong only if 1e-3*beta_k exceeds the solver band 1e-4*(1+beta_k) (otherwise counted); the outside probe sits at rho(beta_k(1+5e-2)) (ruling: the feasibility SDP accepts up to ~1e-2 beyond the boundary with status optimal_inaccurate; the property promises acceptance inside, not rejection outside) and is fed only where it is still a state (lambda_min > 0)',
+    'vecN of return_info=True must support the set within 1e-4*(1+beta+|x-vecA|) (beta and the dual are solver outputs); generalized-PPT boundary: 2*xtol = 2e-5 (documented root-finding tolerance)',
+    'identical LP data in one thread give identical optima (1e-9) - used for the use_tqdm / return_info / re-use invariance of CHABoundaryBagging',
+    'CHABoundaryBagging.solve(num_init_retry=0) on a re-used object whose bag (left by an earlier solve) does not contain the new ray in its hull: the LP is infeasible, the library reports it as -inf (cvxpy value of an infeasible maximisation) or trips over None; ruled outside the domain (the option skips exactly the initialisation that guarantees feasibility) and counted',
+    'SymmetricExtABkIrrepModel(dA, 2, k) is rejected by a nested constructor assert (single irrep block): counted as rejected_by_precondition',
     'an inner-model state rejected by a feasibility SDP is re-examined with the boundary SDP along its own direction: inside by more than the solver band = violation, within the band = counted',
 ]
 CASE_TIMEOUT = 400
 CHUNK = 1
 SOLVER_TOL = 1e-4
+# additions whose oracle fires on the unchanged tree (reported, to be repaired in numqi): the oracle stays in the module, the
+# flagged input is skipped and counted as pending/<flag>
+PENDING = set()  # isABk_outside and cha_retry0_infeasible were ruled on (ASSUMPTIONS, DESIGN 9.5)
 
 
 # ------------------------------------------------------------------------------------------------ reference helpers
@@ -135,10 +165,26 @@ def directions(dims, env):
     return res
 
 
+def probe_plan(dims, tier, no, n, ncase):
+    """feasibility probes on both sides of a variant's boundary. Close to the boundary the solver (SCS) runs into its 1e5 iteration
+    limit, 1..15 s per state, for every k (k=1 included), so the probes cover a declared sub-grid [positions in the case, variant rule]:
+      quick    2x2: one direction of each of the last 4 cases (G_i+-G_j, local products, named and generic directions), variant j (k >= 2) of
+                    the variant list in case number j mod 4 (single-item and return_info forms in the last case only);  other dims: none
+      thorough 2x2: first 2 directions of each case, all variants; 2x3: first direction of every 2nd case, k<=2;
+               3x3 / 2x4 / 3x2: first direction of every 8th case, k=1 and bosonic k=2"""
+    if tier == 'quick':
+        return {'pos': [0], 'rule': 'rr4', 'no': no, 'single': no == ncase - 1} if (dims == (2, 2) and no >= ncase - 4) else {'pos': [], 'rule': 'none', 'no': no}
+    if dims == (2, 2):
+        return {'pos': list(range(min(2, n))), 'rule': 'all', 'no': no, 'single': True}
+    if dims == (2, 3):
+        return {'pos': [0] if no % 2 == 0 else [], 'rule': 'k2', 'no': no, 'single': True}
+    return {'pos': [0] if no % 8 == 0 else [], 'rule': 'k2boson', 'no': no, 'single': True}
+
+
 def build_cases(tier, seed):
     dims_list = [(2, 2), (2, 3), (3, 3)] + ([(2, 4), (3, 2)] if tier == 'thorough' else [])
     cases = []
-    info = {'dims': [list(d) for d in dims_list], 'deltas': [1e-6, 1e-3]}
+    info = {'dims': [list(d) for d in dims_list], 'dims_threshold_part': [[2, 2], [2, 3], [3, 3], [2, 4], [3, 2]], 'deltas': [1e-6, 1e-3]}
     ndir = {}
 
     class _E:
@@ -148,6 +194,10 @@ def build_cases(tier, seed):
         D = directions(dims, env)
         ndir[str(dims)] = len(D)
         cases.append({'kind': 'thresh', 'dims': list(dims)})
+    if tier == 'quick':  # eigenvalue-only part is cheap: the asymmetric dimension pairs are in the quick tier too (no SDP ordering there)
+        for dims in [(2, 4), (3, 2)]:
+            ndir[str(dims)] = len(directions(dims, env))
+            cases.append({'kind': 'thresh', 'dims': list(dims)})
     # ordering: chunks of directions; the variant list is enumerated inside the case
     order_dirs = {(2, 2): None, (2, 3): None, (3, 3): None, (2, 4): None, (3, 2): None}
     for dims in dims_list:
@@ -159,7 +209,8 @@ def build_cases(tier, seed):
             idx = list(range(len(D)))
         step = {(2, 2): 12, (2, 3): 6, (3, 2): 6, (3, 3): 3, (2, 4): 3}[dims]
         for a in range(0, len(idx), step):
-            cases.append({'kind': 'order', 'dims': list(dims), 'idx': idx[a:a + step]})
+            chunk = idx[a:a + step]
+            cases.append({'kind': 'order', 'dims': list(dims), 'idx': chunk, 'probe': probe_plan(dims, tier, a // step, len(chunk), -(-len(idx) // step))})
         order_dirs[dims] = len(idx)
     info['directions'] = ndir
     info['directions_in_ordering'] = {str(k): v for k, v in order_dirs.items() if v is not None}
@@ -168,8 +219,20 @@ def build_cases(tier, seed):
     for dims in [(2, 2), (2, 3)] + ([(3, 3)] if tier == 'thorough' else []):
         for ns in (None, 3):
             cases.append({'kind': 'inner_cha', 'dims': list(dims), 'num_state': ns})
-        for k in (1, 2, 3) if dims == (2, 2) else (1, 2):
+    for dims in [(2, 2), (2, 3), (3, 3)]:  # rank <= 2 separable states: eigenvalue criteria only (no SDP), every tier
+        cases.append({'kind': 'inner_cha', 'dims': list(dims), 'num_state': 2, 'cheap_only': True})
+    for dims in [(2, 2), (2, 3)] + ([(3, 3)] if tier == 'thorough' else []):
+        for k in (1, 2, 3, 4) if dims == (2, 2) else (1, 2):  # the statement: k = 1..4
             cases.append({'kind': 'inner_pureb', 'dims': list(dims), 'k': k})
+        for k in (2, 3) if (dims == (2, 3) and tier == 'thorough') else (2,):  # dimB = 2 is rejected by the constructor (recorded once)
+            cases.append({'kind': 'inner_symext', 'dims': list(dims), 'k': k})
+    for dims in [(2, 2)] + ([(2, 3)] if tier == 'thorough' else []):
+        for pair in CHA_PAIRS[tier][:None if dims == (2, 2) else 1]:
+            cases.append({'kind': 'cha_hist', 'dims': list(dims), 'pair': list(pair)})
+    info['feasibility_probe_plan'] = probe_plan.__doc__.split('sub-grid [positions in the case, variant rule]:')[1].strip()
+    info['cha_history_pairs'] = {'(2,2)': CHA_PAIRS[tier], '(2,3)': CHA_PAIRS[tier][:1] if tier == 'thorough' else []}
+    info['return_info_directions_per_case'] = '2, every 2nd case' if tier == 'quick' else 'all'
+    info['pending'] = sorted(PENDING)
     info['exhaustive'] = True
     info['note'] = 'the direction alphabet x variant product is enumerated completely within the stated bounds (quick: stride-3 subset of the axis directions for systems larger than 2x2 in the SDP ordering part)'
     return cases, info
@@ -184,10 +247,398 @@ def variants(dims, tier):
             for ppt in (False, True):
                 if dims == (3, 3) and k == 2 and not boson and tier == 'quick':
                     continue  # 3x3 k=2 without bosonic symmetry: 81x81 SDP variable, thorough only
-                if k == 1 and boson:
-                    continue
-                vs.append((k, boson, ppt))
+                vs.append((k, boson, ppt))  # k=1 with use_boson=True: the only irrep of S_1, must equal the plain k=1 problem
     return vs
+
+
+def gvec(G, rho):
+    """Gell-Mann (Bloch) vector of rho w.r.t. the reference basis G (Tr G_i G_j = 2 delta_ij):  rho = 1/N + sum_i v_i G_i"""
+    return np.einsum('kij,...ji->...k', G, rho).real / 2
+
+
+def stronger(v, w):
+    """the set of variant v=(k,boson,ppt) is contained in the set of variant w (more copies / more constraints)"""
+    return v[0] >= w[0] and (v[1] or not w[1]) and (v[2] or not w[2])
+
+
+def _order_forms(out, E, cvxpy, numqi, dims, sel, dms, G, v, b, duals, nri, forms):
+    """option / argument-form axes of get_ABk_symmetric_extension_boundary on the directions of one `order` case:
+    return_info=True (dual branch: boundary point vecA, unit normal vecN), single 2-d item, list input, real float64 input,
+    representatives of the same direction on and beyond the state-space boundary (the docstring: only the direction matters).
+    Reference: the default-option batched complex128 call `b` (same SDP: solver band) and exact identities for vecA / vecN."""
+    k, boson, ppt = v
+    N = dims[0] * dims[1]
+    kw = dict(use_ppt=ppt, use_boson=boson, use_tqdm=False)
+    fn = 'get_ABk_symmetric_extension_boundary'
+    tag = 'k=%d boson=%s ppt=%s' % v
+
+    def band(x):
+        return SOLVER_TOL * (1 + abs(x))
+    # ---- return_info=True, batched over the first nri directions of the case (quick: 2 directions of every 2nd case, thorough: all)
+    sel_all, b_all = sel, b
+    sel, dms, b = sel[:nri], dms[:nri], b[:nri]
+    try:
+        ret = E.get_ABk_symmetric_extension_boundary(dms, dims, k, return_info=True, **kw)
+        out.trans(len(sel))
+    except cvxpy.error.SolverError:
+        out.count('solver_failed')
+        ret = None
+    if ret is not None:
+        ok = isinstance(ret, tuple) and len(ret) == 3
+        if ok:
+            b2, vA, vN = (np.asarray(x) for x in ret)
+            ok = b2.shape == (len(sel),) and vA.shape == (len(sel), N * N - 1) and vN.shape == vA.shape and all(np.isfinite(x).all() for x in (b2, vA, vN))
+        if not ok:
+            out.violation(fn + '/return_info/layout', '%s: return_info=True must give (beta (n,), vecA (n,N^2-1), vecN (n,N^2-1)), all finite' % tag, dims=dims, dm=dms, ret=ret)
+        else:
+            for i, (lab, dm, unit) in enumerate(sel):
+                if abs(b2[i] - b[i]) > band(b[i]):
+                    out.violation(fn + '/return_info/changes_beta', '%s direction %s: beta %.8f with return_info=True, %.8f without' % (tag, lab, b2[i], b[i]), dims=dims, dm=dm)
+                # vecA is beta * (unit Bloch vector of the direction): exact identity, eigenvalue-free -> 1e-10
+                if np.abs(vA[i] - gvec(G, point(unit, b2[i]))).max() > 1e-10 or np.abs(numqi.gellmann.gellmann_basis_to_dm(vA[i]) - point(unit, b2[i])).max() > 1e-10:
+                    out.violation(fn + '/return_info/vecA_is_not_the_boundary_point', '%s direction %s: gellmann_basis_to_dm(vecA) differs from 1/N + beta*unit' % (tag, lab), dims=dims, dm=dm, vecA=vA[i], beta=b2[i])
+                if abs(np.linalg.norm(vN[i]) - 1) > 1e-10:
+                    out.violation(fn + '/return_info/vecN_not_unit', '%s direction %s: |vecN| = %.12g' % (tag, lab, np.linalg.norm(vN[i])), dims=dims, dm=dm)
+            duals[v] = (b2, vA, vN)
+            out.count('return_info_variants')
+    # ---- single 2-d item (with return_info=True: un-batched layout), list input, real float64 input. The argument forms are
+    # normalised before the SDP is set up (variant-independent code path; each call pays the cvxpy set-up again): quick enumerates them
+    # for the first variant in every case and for the last variant in every 4th case; thorough: all variants in every 4th case
+    if not forms:
+        return
+    sel, b = sel_all, b_all
+    lab0, dm0, unit0 = sel[0]
+    try:
+        r1 = E.get_ABk_symmetric_extension_boundary(dm0, dims, k, return_info=True, **kw)
+        out.trans()
+        ok = isinstance(r1, tuple) and len(r1) == 3 and np.ndim(r1[0]) == 0 and np.shape(r1[1]) == (N * N - 1,) and np.shape(r1[2]) == (N * N - 1,)
+        if not ok:
+            out.violation(fn + '/single_item/layout', '%s: a 2-d rho with return_info=True must give (float, (N^2-1,), (N^2-1,))' % tag, dims=dims, dm=dm0, ret=r1)
+        elif abs(float(r1[0]) - b[0]) > band(b[0]):
+            out.violation(fn + '/single_item/differs_from_batched', '%s direction %s: single %.8f, batched %.8f' % (tag, lab0, float(r1[0]), b[0]), dims=dims, dm=dm0)
+        elif v in duals and (np.abs(r1[1] - duals[v][1][0]).max() > band(b[0])):
+            out.violation(fn + '/single_item/vecA_differs_from_batched', '%s direction %s' % (tag, lab0), dims=dims, dm=dm0)
+        r2 = E.get_ABk_symmetric_extension_boundary(dm0, dims, k, **kw)
+        out.trans()
+        if np.ndim(r2) != 0 or abs(float(r2) - b[0]) > band(b[0]):
+            out.violation(fn + '/single_item/differs_from_batched', '%s direction %s: single %s, batched %.8f' % (tag, lab0, r2, b[0]), dims=dims, dm=dm0)
+        m = min(2, len(sel))
+        r3 = np.asarray(E.get_ABk_symmetric_extension_boundary([x.copy() for x in dms[:m]], dims, k, **kw))
+        out.trans(m)
+        if r3.shape != (m,) or np.abs(r3 - b[:m]).max() > band(b[:m].max()):
+            out.violation(fn + '/list_input/differs_from_array', '%s: list of 2-d arrays gives %s, 3-d array %s' % (tag, r3, b[:m]), dims=dims, dm=dms[:m])
+        real = [i for i, d in enumerate(sel) if np.abs(d[1].imag).max() == 0]
+        if real:
+            i = real[0]
+            r4 = E.get_ABk_symmetric_extension_boundary(np.ascontiguousarray(sel[i][1].real, dtype=np.float64), dims, k, **kw)
+            out.trans()
+            out.count('real_float64_input')
+            if np.ndim(r4) != 0 or abs(float(r4) - b[i]) > band(b[i]):
+                out.violation(fn + '/real_float64_input/differs_from_complex128', '%s direction %s: float64 %s, complex128 %.8f' % (tag, sel[i][0], r4, b[i]), dims=dims, dm=sel[i][1])
+        # representatives of direction 0 / 1 on the state-space boundary and beyond it (non-PSD, Hermitian, trace one)
+        bu = E.get_density_matrix_boundary(dms[:m])[1]
+        reps = np.stack([point(sel[j][2], (1.0, 1.5)[j % 2] * bu[j]) for j in range(m)])
+        r5 = np.asarray(E.get_ABk_symmetric_extension_boundary(reps, dims, k, **kw))
+        out.trans(m)
+        if r5.shape != (m,) or np.abs(r5 - b[:m]).max() > band(b[:m].max()):
+            out.violation(fn + '/representative/boundary_or_non_psd_representative_differs', '%s: representatives at beta_DM and 1.5 beta_DM give %s, interior ones %s' % (tag, r5, b[:m]), dims=dims, dm=reps)
+    except cvxpy.error.SolverError:
+        out.count('solver_failed')
+
+
+def _order_numerical_range(out, E, cvxpy, dims, sel, G, b_ppt, betas):
+    """get_ppt_numerical_range / get_ABk_extension_numerical_range with the complete Gell-Mann basis as op_list: the operators
+    fix the state, Tr(rho G_i) = 2 v_i, so the 'range' along the unit Bloch vector n of a direction is twice the boundary length"""
+    m = min(2, len(sel))
+    nvec = np.stack([gvec(G, sel[j][2]) for j in range(m)])  # unit Bloch vectors
+
+    def cmp(fn, got, ref, tag):
+        got = np.asarray(got, dtype=np.float64)
+        if got.shape != ref.shape or not np.isfinite(got).all() or np.abs(got - 2 * ref).max() > 2 * SOLVER_TOL * (1 + np.abs(ref).max()):
+            out.violation(fn + '/gellmann_op_list_differs_from_boundary', '%s: numerical range %s along the direction, twice the boundary length %s' % (tag, got, 2 * ref), dims=dims, direction=nvec)
+    try:
+        r = E.get_ppt_numerical_range(list(G), nvec, dims, use_tqdm=False)
+        out.trans(m)
+        cmp('get_ppt_numerical_range', r, b_ppt[:m], 'batch')
+        r = E.get_ppt_numerical_range(G, nvec[0], dims, return_info=True, use_tqdm=False)
+        out.trans()
+        if not (isinstance(r, tuple) and len(r) == 3 and np.ndim(r[0]) == 0 and np.shape(r[1]) == (len(G),)):
+            out.violation('get_ppt_numerical_range/return_info/layout', '1-d direction with return_info=True must give (float, (m,), (m,))', dims=dims, ret=r)
+        else:
+            cmp('get_ppt_numerical_range', r[0], b_ppt[0], 'single, return_info=True')
+            # the boundary vector is Tr(rho G_i) = 2 * beta * n_i
+            if np.abs(np.asarray(r[1]) - r[0] * nvec[0]).max() > 2 * SOLVER_TOL * (1 + abs(r[0])):
+                out.violation('get_ppt_numerical_range/return_info/boundary_not_on_ray', 'returned boundary vector is not beta * direction', dims=dims, ret=r, direction=nvec[0])
+        for v in ((2, False, False), (2, True, True)):
+            if v not in betas:
+                continue
+            r = E.get_ABk_extension_numerical_range(G, nvec, dims, v[0], use_ppt=v[2], use_boson=v[1], use_tqdm=False)
+            out.trans(m)
+            cmp('get_ABk_extension_numerical_range', r, betas[v][:m], 'k=%d boson=%s ppt=%s' % v)
+        out.count('numerical_range_compared')
+    except cvxpy.error.SolverError:
+        out.count('solver_failed')
+
+
+def _cheap_outer_tests(out, E, dims, rho, key, what, **detail):
+    """the eigenvalue / trace criteria of the flowchart with their DEFAULT thresholds on a state that is separable by construction:
+    PPT, generalized PPT, reduction criterion and (dimA == dimB) the swap witness must all accept. Rank-deficient states matter:
+    there rho_A (x) 1 - rho and the partial transpose have exact zero eigenvalues, so the sign of the default eps decides.
+    key % name gives the finding key."""
+    tests = [('is_ppt', lambda: E.is_ppt(rho, dims)), ('is_generalized_ppt', lambda: E.is_generalized_ppt(rho, dims)),
+             ('check_reduction_witness', lambda: E.check_reduction_witness(rho, dims))]
+    if dims[0] == dims[1]:
+        tests.append(('check_swap_witness', lambda: E.check_swap_witness(rho)))
+    for name, f in tests:
+        r = f()
+        out.trans()
+        if not (isinstance(r, (bool, np.bool_)) and bool(r)):
+            out.violation(key % name, '%s: %s with default thresholds returns %r for a separable state' % (what, name, r), dims=dims, rho=rho, **detail)
+    out.count('cheap_outer_tests_on_separable_states')
+
+
+def _cha_products_vs_outer(out, E, dims, kA, kB, lab, dm, nmax=None):
+    """every product state kA[i] (x) kB[i] of a CHA decomposition is fed to the outer tests: PPT, and (being a pure product state,
+    i.e. a boundary point of the PPT set) its Gell-Mann norm does not exceed the exact PPT / state-space boundary along its own
+    direction. Eigenvalue computations on a rank-one projector: 1e-10 like the other exact comparisons of this module."""
+    kA, kB = kA[:nmax], kB[:nmax]  # quick: the first 8 product states of each decomposition, thorough: all
+    ab = np.einsum('ki,kj->kij', kA, kB).reshape(len(kA), -1)
+    proj = np.einsum('ki,kj->kij', ab, ab.conj())
+    nrm = gm_norm(proj)
+    bp = E.get_ppt_boundary(proj, dims)[1]
+    bd = E.get_density_matrix_boundary(proj)[1]
+    out.trans(2)
+    for i in range(len(proj)):
+        out.count('cha_product_states_fed_to_outer_tests')
+        if not E.is_ppt(proj[i], dims):
+            out.violation('CHABoundaryBagging.solve/product_state/rejected_by_is_ppt', 'product state %d of the decomposition along %s is not PPT' % (i, lab), dims=dims, dm=dm, ketA=kA[i], ketB=kB[i])
+        if i < 4:  # the remaining eigenvalue criteria on the first 4 product states of each decomposition (PPT: all of them)
+            _cheap_outer_tests(out, E, dims, proj[i], 'CHABoundaryBagging.solve/product_state/rejected_by_%s', 'product state %d of the decomposition along %s' % (i, lab), ketA=kA[i], ketB=kB[i])
+        if not (nrm[i] <= bp[i] + 1e-10 * (1 + nrm[i]) and nrm[i] <= bd[i] + 1e-10 * (1 + nrm[i])):
+            out.violation('CHABoundaryBagging.solve/product_state/beyond_ppt_boundary', 'product state %d along %s: Gell-Mann norm %.12f, PPT boundary %.12f, state-space boundary %.12f along its own direction'
+                          % (i, lab, nrm[i], bp[i], bd[i]), dims=dims, dm=dm, ketA=kA[i], ketB=kB[i])
+
+
+def _order_hyperplanes(out, dims, sel, duals, pool):
+    """vecN of return_info=True is documented as the normal vector of the boundary: the k-extendible set is convex, so
+    vecN.(x - vecA) <= 0 for every x of the set. x ranges over: the maximally mixed state, every product state returned by the CHA
+    solves of this case (separable: inside every variant's set), the boundary points (vecA) of the other directions for the same
+    variant and of every stronger variant (more copies / bosonic / PPT). Band: beta and the dual are solver outputs, |vecN| = 1:
+    SOLVER_TOL * (1 + beta + |x - vecA|)."""
+    for v, (b2, vA, vN) in duals.items():
+        X = np.concatenate([pool] + [duals[w][1] for w in duals if stronger(w, v)])
+        for i, (lab, dm, unit) in enumerate(sel[:len(b2)]):
+            d = X - vA[i]
+            exc = d @ vN[i] - SOLVER_TOL * (1 + abs(b2[i]) + np.linalg.norm(d, axis=1))
+            out.trans()
+            j = int(np.argmax(exc))
+            if exc[j] > 0:
+                out.violation('get_ABk_symmetric_extension_boundary/return_info/vecN_is_not_a_supporting_hyperplane',
+                              'k=%d boson=%s ppt=%s direction %s: a state of the set lies %.3g beyond the returned hyperplane (%s)'
+                              % (v + (lab, float(d[j] @ vN[i]), 'maximally mixed state' if j == 0 else 'CHA product state' if j < len(pool) else 'boundary point of another direction / stronger variant')),
+                              dims=dims, dm=dm, vecA=vA[i], vecN=vN[i], x=X[j])
+            out.count('hyperplane_points_tested', len(X))
+
+
+def _order_generalized_ppt(out, E, dims, sel, b_cha, b_ppt, b_dm):
+    """bipartite generalized-PPT set: contains the separable states and is contained in the PPT set (one of its index splits is the
+    partial transpose). Root finding with xtol=1e-5 (documented default): 2*xtol on the exact upper bounds, solver band on the CHA side."""
+    for i, (lab, dm, unit) in enumerate(sel):
+        bg = E.get_generalized_ppt_boundary(dm, dims)
+        out.trans()
+        if not np.isfinite(bg):
+            out.violation('get_generalized_ppt_boundary/not_finite', 'direction %s: %s' % (lab, bg), dims=dims, dm=dm)
+            continue
+        if bg > b_ppt[i] + 2e-5 or bg > b_dm[i] + 2e-5:
+            out.violation('ordering/beta_genPPT<=beta_PPT', 'direction %s: generalized-PPT boundary %.6f exceeds PPT %.6f / state-space %.6f' % (lab, bg, b_ppt[i], b_dm[i]), dims=dims, dm=dm)
+        if np.isfinite(b_cha[i]) and b_cha[i] > bg + 2e-5 + SOLVER_TOL * (1 + abs(bg)):
+            out.violation('ordering/beta_CHA<=beta_genPPT', 'direction %s: beta_CHA %.6f exceeds the generalized-PPT boundary %.6f' % (lab, b_cha[i], bg), dims=dims, dm=dm)
+
+
+def _order_feasibility(out, E, cvxpy, dims, sel, betas, b_dm, b_ppt, probe):
+    """is_ABk_symmetric_ext on both sides of the boundary the boundary SDP reported: rho(beta_k (1 - 1e-3)) must be accepted,
+    rho(beta_k (1 + 1e-3)) - where that is still a state - rejected; batched == single == return_info=True. A wrong verdict is a
+    violation only if the probe distance 1e-3 * beta exceeds the solver band SOLVER_TOL * (1 + beta) (otherwise counted)."""
+    delta = 1e-3
+    fn = 'is_ABk_symmetric_ext'
+    vlist = list(betas)
+    # probe positions: the plan gives how many directions of the case; directions whose exact PPT boundary lies below the state-space
+    # boundary come first (there the outside probe of the PPT variants is still a state), ties in enumeration order
+    order = sorted(range(len(sel)), key=lambda j: (not b_ppt[j] < b_dm[j] * (1 - 2e-3), j))
+    for v, b in betas.items():
+        k, boson, ppt = v
+        rule = probe.get('rule', 'none')
+        take = {'none': False, 'all': True, 'k2': k <= 2, 'k2boson': k == 1 or (k == 2 and boson), 'rr4': k >= 2 and vlist.index(v) % 4 == probe.get('no', 0) % 4}[rule]
+        pos = order[:len(probe.get('pos', []))] if take else []
+        if not pos:
+            continue
+        psel = [sel[j] for j in pos]
+        out.count('feasibility_probe_variant_x_direction', len(pos))
+        kw = dict(use_ppt=ppt, use_boson=boson, use_tqdm=False)
+        tag = 'k=%d boson=%s ppt=%s' % v
+        bb = np.array([b[j] for j in pos])
+        decisive = delta * bb > SOLVER_TOL * (1 + np.abs(bb))
+        for side, sgn in (('inside', -1), ('outside', +1)):
+            # ruling (DESIGN 9.5): the property promises acceptance of what lies inside; a feasibility SDP that stops with status
+            # optimal_inaccurate accepts states up to ~1e-2 relative beyond the boundary the boundary SDP reports (solver accuracy, not
+            # a defect: it weakens detection, it does not make a verdict 'entangled' unsound). The outside probe therefore sits at
+            # relative distance 5e-2, where an always-accepting test is still caught.
+            dl = delta if side == 'inside' else 5e-2
+            states = [point(u, x * (1 + sgn * dl)) for (lab, dm, u), x in zip(psel, bb)]
+            ok = [j for j, r in enumerate(states) if lam_min(r) > 0]  # the library asserts lambda_min > -1e-6: only genuine states are fed
+            out.count('feasibility_probe_%s_not_a_state' % side, len(states) - len(ok))
+            if not ok:
+                continue
+            stack = np.stack([states[j] for j in ok])
+            want = side == 'inside'
+            try:
+                acc = np.asarray(E.is_ABk_symmetric_ext(stack, dims, k, **kw))
+                out.trans(len(ok))
+                a1 = a2 = None
+                if probe.get('single'):
+                    # single 2-d item with return_info=True (one extra SDP), plain single call in addition for k=1
+                    a2 = E.is_ABk_symmetric_ext(stack[0], dims, k, return_info=True, **kw)
+                    a1 = E.is_ABk_symmetric_ext(stack[0], dims, k, **kw) if k == 1 else (a2[0] if isinstance(a2, tuple) else a2)
+                    out.trans(2 if k == 1 else 1)
+            except cvxpy.error.SolverError:
+                out.count('solver_failed')
+                continue
+            if acc.shape != (len(ok),) or acc.dtype != np.bool_:
+                out.violation(fn + '/batch_layout', '%s: a 3-d batch must give a 1-d bool array, got %r' % (tag, acc), dims=dims, rho=stack)
+                continue
+            lab0 = psel[ok[0]][0]
+            if a2 is not None and (np.ndim(a1) != 0 or bool(a1) != bool(acc[0])):
+                out.violation(fn + '/single_differs_from_batched', '%s direction %s, %s probe: single %r, batched %r' % (tag, lab0, side, a1, acc[0]), dims=dims, rho=stack[0])
+            if a2 is not None and not (isinstance(a2, tuple) and len(a2) == 2 and bool(a2[0]) == bool(a1) and ((a2[1] is None) == (not a2[0]))):
+                out.violation(fn + '/return_info_changes_verdict', '%s direction %s, %s probe: return_info=True gives %r, plain call %r' % (tag, lab0, side, a2[0] if isinstance(a2, tuple) else a2, a1), dims=dims, rho=stack[0])
+            for j, a in zip(ok, acc):
+                out.outcome((dims, v, side, bool(a)), nontrivial=True)
+                if bool(a) == want:
+                    continue
+                if decisive[j]:
+                    out.violation(fn + ('/rejects_inside_boundary' if want else '/accepts_outside_boundary'),
+                                  '%s direction %s: rho(beta*(1%+g)) with beta=%.6f from the boundary SDP is %s' % (tag, psel[j][0], sgn * dl, bb[j], 'rejected' if want else 'accepted'), dims=dims, rho=states[j])
+                else:
+                    out.count('feasibility_probe_within_solver_band')
+
+
+def _thresh_options(out, E, dims, D, dms, bl, bu, res):
+    """dm_norm= argument forms (1-d batch, 2-d batch, size-1 array / scalar broadcast over a batch of equal norms) and representatives of
+    the same directions on the state-space boundary (rank deficient) and beyond it (Hermitian, trace one, not PSD): the functions
+    document that they return the boundary along the direction, so all must equal the default call. Exact eigenvalue arithmetic:
+    1e-12 relative for the same matrices, 1e-10 for re-scaled representatives (as for the other exact comparisons of this module)."""
+    N = dims[0] * dims[1]
+    n = len(D)
+    K = n - n % 2
+    nrm = gm_norm(dms)
+    units = np.stack([d[2] for d in D])
+    eq = np.eye(N) / N + 0.05 * units  # every item has Gell-Mann norm 0.05
+
+    def same(got, ref, tol, key, what, **kw):
+        ok = all(np.shape(g) == np.shape(r) and np.isfinite(g).all() and np.abs(np.asarray(g) - np.asarray(r)).max() <= tol * (1 + np.abs(r).max()) for g, r in zip(got, ref))
+        if not ok:
+            out.violation(key, what, dims=dims, got=[np.asarray(g) for g in got], ref=[np.asarray(r) for r in ref], **kw)
+    fns = [('get_density_matrix_boundary', lambda x, **kw: E.get_density_matrix_boundary(x, **kw), (bl, bu))]
+    for wd in (True, False):
+        fns.append(('get_ppt_boundary', (lambda x, wd=wd, **kw: E.get_ppt_boundary(x, dims, within_dm=wd, **kw)), res[wd]))
+    for fn, f, ref in fns:
+        same(f(dms, dm_norm=nrm), ref, 1e-12, fn + '/dm_norm/batch_differs_from_default', 'dm_norm=<1-d array of the Gell-Mann norms> differs from dm_norm=None')
+        ref2 = tuple(r[:K].reshape(K // 2, 2) for r in ref)
+        same(f(dms[:K].reshape(K // 2, 2, N, N), dm_norm=nrm[:K].reshape(K // 2, 2)), ref2, 1e-12, fn + '/dm_norm/batch2d_differs_from_default', 'dm_norm=<2-d array> with a 2-d batch differs from dm_norm=None')
+        base = f(eq)
+        same(base, ref, 1e-10, fn + '/representative/equal_norm_representatives_differ', 'the representatives 1/N + 0.05*unit give another boundary than the enumerated ones')
+        for form, val in (('python float', 0.05), ('size-1 array', np.array([0.05])), ('0-d array', np.array(0.05))):
+            same(f(eq, dm_norm=val), base, 1e-12, fn + '/dm_norm/size1_broadcast_differs_from_default', 'dm_norm=%s broadcast over a batch of equal-norm items differs from dm_norm=None' % form, dm_norm=val)
+        same(f(eq[0], dm_norm=np.array([0.05])), tuple(b[0] for b in base), 1e-12, fn + '/dm_norm/size1_array_single_item', 'dm_norm=array([0.05]) with one 2-d item differs from dm_norm=None')
+        for rep, fac in (('on the state-space boundary', 1.0), ('beyond the state-space boundary (not PSD)', 1.5)):
+            reps = np.eye(N) / N + (fac * bu)[:, None, None] * units
+            same(f(reps), ref, 1e-10, fn + '/representative/boundary_or_non_psd_representative_differs', 'representatives %s give another boundary than the interior ones' % rep)
+        out.trans(10)
+    out.count('dm_norm_forms_compared', 3 * 6)
+
+
+CHA_PAIRS = {'quick': [('+G0', 'ghz_like'), ('ghz_like', 'G0-G1')], 'thorough': [('+G0', 'ghz_like'), ('ghz_like', 'G0-G1'), ('GA0(x)GB0', '-G2'), ('-G1', 'GA1(x)GB2')]}
+
+
+def _cha_history(case, out, env, E, cvxpy, dims):
+    """CHABoundaryBagging option / re-use histories on a pair (A, B) of real directions:
+        history in {fresh object; object that solved A before, num_init_retry=10; the same with num_init_retry=0 (B starts from A's bag)}
+        x maxiter in {0, 3} x use_tqdm x return_info,  equal seed for every solve of B.
+    (a fresh object with num_init_retry=0 has no bag to start from: not a configuration.)
+    Oracles: feasible point (decomposition reproduces rho_B(beta), product states pass the outer tests), beta <= exact PPT boundary,
+    use_tqdm / return_info do not change beta for an equal seed, and with num_init_retry>0 the earlier solve leaves no trace (== fresh).
+    Identical LP data in one thread give identical optima: 1e-9; feasibility: the LP band of the `order` part."""
+    import contextlib
+    import io
+    N = dims[0] * dims[1]
+    D = {d[0]: d for d in directions(dims, env)}
+    (la, dmA, uA), (lb, dmB, uB) = D[case['pair'][0]], D[case['pair'][1]]
+    b_ppt = E.get_ppt_boundary(dmB, dims)[1]
+    fn = 'CHABoundaryBagging.solve'
+    res = {}
+    for hist in ('fresh', 'reused_retry10', 'reused_retry0'):
+        for maxiter in (0, 3):
+            for tq in (False, True):
+                for ri in (False, True):
+                    out.state()
+                    cfg = (hist, maxiter, tq, ri)
+                    try:
+                        model = E.CHABoundaryBagging(dims)
+                        if hist != 'fresh':
+                            model.solve(dmA, maxiter=3, seed=11)
+                        with contextlib.redirect_stderr(io.StringIO()):
+                            r = model.solve(dmB, maxiter=maxiter, num_init_retry=0 if hist == 'reused_retry0' else 10, use_tqdm=tq, return_info=ri, seed=5)
+                        out.trans()
+                    except cvxpy.error.SolverError:
+                        out.count('solver_failed[cha]')
+                        continue
+                    except (RuntimeError, AssertionError):
+                        out.count('cha_no_initial_state')  # the library's own failure signals (no feasible bag)
+                        continue
+                    except TypeError as e:
+                        # num_init_retry=0 with a bag (left by the solve of A) whose hull misses the ray of B: the LP is infeasible, cvxpy
+                        # reports -inf / lambda None and the iteration / return_info code trips over None
+                        if hist == 'reused_retry0':
+                            out.count('outside_domain/retry0_on_a_bag_whose_hull_misses_the_ray')  # ruling, see ASSUMPTIONS
+                        else:
+                            out.violation(fn + '/history/infeasible_bag/TypeError', 'history %s maxiter=%d use_tqdm=%s return_info=%s: %r' % (cfg + (e,)), dims=dims, dmA=dmA, dmB=dmB)
+                        continue
+                    beta = r[0] if ri else r
+                    if hist == 'reused_retry0' and beta is not None and np.isneginf(beta):
+                        if True:
+                            out.count('outside_domain/retry0_on_a_bag_whose_hull_misses_the_ray')
+                        else:
+                            out.violation(fn + '/history/infeasible_bag/returns_minus_inf', 'history %s maxiter=%d use_tqdm=%s return_info=%s: an infeasible LP is reported as boundary length -inf instead of a failure' % cfg, dims=dims, dmA=dmA, dmB=dmB)
+                        continue
+                    if ri != isinstance(r, tuple) or beta is None or not np.isfinite(beta):
+                        out.violation(fn + '/history/result_layout', 'history %s maxiter=%d use_tqdm=%s return_info=%s: returned %r' % (cfg + (r,)), dims=dims, dmA=dmA, dmB=dmB)
+                        continue
+                    res[cfg] = float(beta)
+                    out.outcome((dims, case['pair'], hist, maxiter, round(float(beta), 6)), nontrivial=True)
+                    tol_lp = max(SOLVER_TOL, model.num_state * 1e-5)  # see the `order` part
+                    if beta > b_ppt + tol_lp * (1 + abs(b_ppt)):
+                        out.violation('ordering/beta_CHA<=beta_PPT', 'history %s maxiter=%d use_tqdm=%s return_info=%s, direction %s: beta_CHA=%.6f exceeds beta_PPT=%.6f' % (cfg + (lb, beta, b_ppt)), dims=dims, dm=dmB)
+                    if ri:
+                        kA, kB, lam, hist_beta = r[1]
+                        ab = np.einsum('ki,kj->kij', kA, kB).reshape(len(lam), N)
+                        rec = np.einsum('k,ki,kj->ij', lam, ab, ab.conj())
+                        if abs(lam.sum() - 1) > tol_lp or lam.min() < -1e-9 or np.abs(rec - point(uB, beta)).max() > tol_lp:
+                            out.violation(fn + '/decomposition_does_not_reproduce_boundary_point', 'history %s maxiter=%d use_tqdm=%s: product states and weights do not recombine to rho_B(beta) (diff %.3g, sum(lambda)-1 = %.3g)'
+                                          % (hist, maxiter, tq, np.abs(rec - point(uB, beta)).max(), lam.sum() - 1), dims=dims, dmA=dmA, dm=dmB)
+                        if len(hist_beta) != maxiter + 1 or hist_beta[-1] != beta:
+                            out.violation(fn + '/history/beta_history_layout', 'beta_history must hold maxiter+1 optima ending with beta; got %r, beta=%r' % (hist_beta, beta), dims=dims, dm=dmB)
+                        _cha_products_vs_outer(out, E, dims, kA, kB, lb, dmB)
+    for (hist, maxiter, tq, ri), beta in res.items():
+        ref = res.get((hist, maxiter, False, False))
+        if ref is not None and abs(beta - ref) > 1e-9 * (1 + abs(ref)):
+            out.violation(fn + '/history/option_changes_beta', 'history %s maxiter=%d: use_tqdm=%s return_info=%s gives beta=%.10f, the plain call %.10f (equal seed)' % (hist, maxiter, tq, ri, beta, ref), dims=dims, dmA=dmA, dm=dmB)
+        ref = res.get(('fresh', maxiter, tq, ri))
+        if hist == 'reused_retry10' and ref is not None and abs(beta - ref) > 1e-9 * (1 + abs(ref)):
+            out.violation(fn + '/history/earlier_solve_leaks_into_later', 'maxiter=%d use_tqdm=%s return_info=%s: an object that solved direction %s before gives beta=%.10f for %s, a fresh object %.10f (equal seed, num_init_retry=10)'
+                          % (maxiter, tq, ri, la, beta, lb, ref), dims=dims, dmA=dmA, dm=dmB)
+    out.count('cha_history_configurations', len(res))
+    out.trace()
+    out.sample = {'kind': 'cha_hist', 'dims': list(dims), 'pair': case['pair'], 'configurations': len(res)}
 
 
 def run_case(case, out, env):
@@ -218,10 +669,19 @@ def run_case(case, out, env):
             if pl2.shape != (K // 2, 2) or np.abs(pl2.reshape(-1) - pl[:K]).max() > 1e-12 or np.abs(pu2.reshape(-1) - pu[:K]).max() > 1e-12:
                 out.violation('get_ppt_boundary/batch2d_differs', '2-d batch differs from 1-d batch (within_dm=%s)' % wd, dims=dims)
             res[wd] = (pl, pu)
+        _thresh_options(out, E, dims, D, dms, bl, bu, res)
         for i, (lab, dm, unit) in enumerate(D):
             out.state()
             bli, bui = E.get_density_matrix_boundary(dm)
             out.trans()
+            # dm_norm= as a python float for a single item
+            nrm_i = float(gm_norm(dm))
+            g1 = E.get_density_matrix_boundary(dm, dm_norm=nrm_i)
+            g2 = E.get_ppt_boundary(dm, dims, dm_norm=nrm_i)
+            out.trans(2)
+            for g, ref_, fn in ((g1, (bli, bui), 'get_density_matrix_boundary'), (g2, (res[True][0][i], res[True][1][i]), 'get_ppt_boundary')):
+                if np.ndim(g[0]) != 0 or max(abs(g[0] - ref_[0]), abs(g[1] - ref_[1])) > 1e-12 * (1 + abs(ref_[1]) + abs(ref_[0])):
+                    out.violation(fn + '/dm_norm/scalar_differs_from_default', 'direction %s: dm_norm=<its Gell-Mann norm> gives %s, dm_norm=None %s' % (lab, g, ref_), dims=dims, dm=dm)
             if abs(bli - bl[i]) > 1e-12 * (1 + abs(bli)) or abs(bui - bu[i]) > 1e-12 * (1 + abs(bui)):
                 out.violation('get_density_matrix_boundary/batched_differs_from_single', 'direction %s' % lab, dims=dims, dm=dm)
             if not (bli < 0 < bui):
@@ -288,6 +748,8 @@ def run_case(case, out, env):
         b_dm = E.get_density_matrix_boundary(dms)[1]
         b_ppt = E.get_ppt_boundary(dms, dims)[1]
         betas = {}
+        duals = {}  # variant -> (beta, vecA, vecN) of the return_info=True call
+        G = np.stack(gellmann(N))
         for (k, boson, ppt) in variants(dims, env.tier):
             try:
                 b = E.get_ABk_symmetric_extension_boundary(dms, dims, k, use_ppt=ppt, use_boson=boson, use_tqdm=False)
@@ -300,8 +762,17 @@ def run_case(case, out, env):
                 out.violation('get_ABk_symmetric_extension_boundary/not_finite', 'k=%d boson=%s ppt=%s returned %s' % (k, boson, ppt, b), dims=dims)
                 continue
             betas[(k, boson, ppt)] = b
+            vlist = variants(dims, env.tier)
+            cno = case.get('probe', {}).get('no', 0)
+            if env.tier == 'quick' and cno % 2:
+                continue  # quick: the option / argument-form axes on every 2nd case (each call pays the cvxpy set-up of the variant again)
+            _order_forms(out, E, cvxpy, numqi, dims, sel, dms, G, (k, boson, ppt), b, duals, nri=2 if env.tier == 'quick' else len(sel),
+                         forms=(k, boson, ppt) == vlist[0] or ((env.tier != 'quick' or (k, boson, ppt) == vlist[-1]) and cno % 4 == 0))
+        if dims in ((2, 2), (2, 3)) and (env.tier != 'quick' or case.get('probe', {}).get('no', 0) == 0):
+            _order_numerical_range(out, E, cvxpy, dims, sel, G, b_ppt, betas)
         # CHA (LP inner approximation): any feasible point is a genuine separable decomposition
         b_cha = np.full(len(sel), np.nan)
+        pool = [np.zeros((1, N * N - 1))]  # Bloch vectors of states that are separable by construction (the maximally mixed state first)
         for i, (lab, dm, unit) in enumerate(sel):
             try:
                 model = E.CHABoundaryBagging(dims)
@@ -323,6 +794,14 @@ def run_case(case, out, env):
             if abs(lam.sum() - 1) > tol_lp or lam.min() < -1e-9 or np.abs(rec - point(unit, beta)).max() > tol_lp:
                 out.violation('CHABoundaryBagging.solve/decomposition_does_not_reproduce_boundary_point',
                               'returned product states and weights do not recombine to rho(beta) (direction %s, diff %.3g, sum(lambda)-1 = %.3g, min(lambda) = %.3g)' % (lab, np.abs(rec - point(unit, beta)).max(), lam.sum() - 1, lam.min()), dims=dims, dm=dm)
+            _cha_products_vs_outer(out, E, dims, kA, kB, lab, dm, nmax=8 if env.tier == 'quick' else None)
+            if lam.sum() > 0:  # the recombined boundary point: an exact convex combination of product projectors once normalised
+                _cheap_outer_tests(out, E, dims, rec / np.trace(rec).real, 'CHABoundaryBagging.solve/boundary_point/rejected_by_%s', 'recombined CHA boundary point along %s' % lab, dm=dm)
+            pool.append(gvec(G, np.einsum('ki,kj->kij', ab, ab.conj())))
+        pool = np.concatenate(pool)
+        _order_hyperplanes(out, dims, sel, duals, pool)
+        _order_feasibility(out, E, cvxpy, dims, sel, betas, b_dm, b_ppt, case.get('probe', {}))
+        _order_generalized_ppt(out, E, dims, sel, b_cha, b_ppt, b_dm)
         for i, (lab, dm, unit) in enumerate(sel):
             out.state()
 
@@ -346,10 +825,10 @@ def run_case(case, out, env):
                 if (k + 1, boson, ppt) in betas:
                     nm2 = 'beta_k%d%s%s' % (k + 1, '_boson' if boson else '', '_ppt' if ppt else '')
                     leq(betas[(k + 1, boson, ppt)][i], b[i], nm2, nm)
-                if k == 1 and not boson:
+                if k == 1:  # with use_boson=True too: S_1 has a single irrep, the bosonic problem is the plain one
                     ref_b = b_ppt[i] if ppt else b_dm[i]
                     if abs(b[i] - ref_b) > tol(ref_b):
-                        out.violation('ordering/beta_k1_equals_%s' % ('beta_PPT' if ppt else 'beta_DM'), 'direction %s: 1-extension boundary %.6f vs exact %.6f' % (lab, b[i], ref_b), dims=dims, dm=dm)
+                        out.violation('ordering/beta_k1%s_equals_%s' % ('_boson' if boson else '', 'beta_PPT' if ppt else 'beta_DM'), 'direction %s: 1-extension boundary %.6f vs exact %.6f' % (lab, b[i], ref_b), dims=dims, dm=dm)
                 if np.isfinite(b_cha[i]):
                     leq(b_cha[i], b[i], 'beta_CHA', nm)
             if np.isfinite(b_cha[i]):
@@ -358,22 +837,39 @@ def run_case(case, out, env):
             out.outcome((dims, lab, tup), nontrivial=len(set(tup)) > 1)
         out.trace()
         out.sample = {'kind': 'order', 'dims': list(dims), 'directions': [d[0] for d in sel], 'variants': [list(v) for v in sorted(betas)]}
-    elif kind in ('inner_cha', 'inner_pureb'):
+    elif kind == 'cha_hist':
+        _cha_history(case, out, env, E, cvxpy, dims)
+    elif kind in ('inner_cha', 'inner_pureb', 'inner_symext'):
         import torch
         from checks.c01_manifold import theta_lattice
-        if kind == 'inner_cha':
+        # outer tests (k, use_boson, use_ppt) every state of the model must pass
+        if kind == 'inner_cha':  # separable: inside every variant's set
             model = E.AutodiffCHAREE(dims, num_state=case['num_state'], distance_kind='gellmann')  # only dm_torch is examined, not the loss
-            ks = [2]
-            boson = False
-        else:
+            if env.tier == 'quick':
+                outer = [(2, False, False)] + ([(2, True, True)] if case['num_state'] is None else [])  # rank-3 mixtures sit on the boundary of the state space: ~4 s per SDP
+            else:
+                outer = {(2, 2): [(2, False, False), (2, True, True), (3, False, True), (1, False, True)], (2, 3): [(2, False, False), (2, True, True), (1, False, True)]}.get(dims, [(2, False, False), (2, True, True)])
+            made = 'separable'
+        elif kind == 'inner_pureb':  # k-bosonic extendible: k' <= k copies, with and without bosonic symmetry (no PPT statement)
             model = E.PureBosonicExt(dA, dB, case['k'], distance_kind='gellmann')
-            ks = list(range(1, case['k'] + 1))
-            boson = True
+            outer = [(kk, boson, False) for kk in range(1, case['k'] + 1) for boson in (True, False)]
+            made = '%d-bosonic' % case['k']
+        else:  # plain k-extendible by construction (block-diagonal extension in the irrep basis)
+            try:
+                model = E.SymmetricExtABkIrrepModel(dA, dB, case['k'])
+            except AssertionError:
+                # dimB = 2: the irrep list holds the bosonic block only and the nested DiscreteProbability(1) asserts dim >= 2 - the
+                # constructor rejects the configuration (undocumented class; same ruling as the size-1 simplices of C01, DESIGN 9.2)
+                out.count('rejected_by_precondition')
+                return
+            outer = [(kk, False, False) for kk in range(2, case['k'] + 1)]
+            made = '%d-symmetric' % case['k']
         model.set_dm_target(np.eye(N) / N)
         params = list(model.parameters())
         n = sum(p.numel() for p in params)
         pts = theta_lattice(n, 10.0, env.rng('C06', kind, dims, n), 2 if env.tier == 'quick' else 4)
-        pts = pts[:: max(1, len(pts) // (10 if env.tier == 'quick' else 40))]
+        # SDP outer tests: every (len/10)-th (thorough: len/40-th) lattice point; eigenvalue tests only: every 3rd (thorough: all)
+        pts = pts[:: (3 if env.tier == 'quick' else 1)] if case.get('cheap_only') else pts[:: max(1, len(pts) // (10 if env.tier == 'quick' else 40))]
         states = []
         for row in pts:
             off = 0
@@ -383,7 +879,10 @@ def run_case(case, out, env):
                     off += p.numel()
             with np.errstate(all='ignore'):
                 model()
-            rho = model.dm_torch.detach().numpy().reshape(N, N).copy()
+            if kind == 'inner_symext':
+                rho = model.rhoAB_transpose.detach().numpy().reshape(dA, dA, dB, dB).transpose(0, 2, 1, 3).reshape(N, N).copy()
+            else:
+                rho = model.dm_torch.detach().numpy().reshape(N, N).copy()
             out.state()
             out.trans()
             if not np.isfinite(rho).all():
@@ -403,33 +902,51 @@ def run_case(case, out, env):
                 continue
             if kind == 'inner_cha' and not E.is_ppt(rho, dims):
                 out.violation('inner_cha/is_ppt_rejects_model_state', 'is_ppt rejects a convex-hull model state', dims=dims, rho=rho)
+            if kind == 'inner_cha':
+                _cheap_outer_tests(out, E, dims, rho, 'inner_cha/%s/rejects_inner_state', 'AutodiffCHAREE(num_state=%s) state at a lattice point' % case['num_state'], theta=row)
             states.append((row, rho))
             out.outcome((kind, dims, np.round(rho, 6)), nontrivial=True)
-        if states:
+        if states and not case.get('cheap_only'):
             stack = np.stack([s[1] for s in states])
-            for kk in ks:
+            for (kk, boson, ppt) in outer:
                 try:
-                    acc = np.asarray(E.is_ABk_symmetric_ext(stack, dims, kk, use_boson=boson, use_tqdm=False))
+                    acc = np.asarray(E.is_ABk_symmetric_ext(stack, dims, kk, use_ppt=ppt, use_boson=boson, use_tqdm=False))
                     out.trans(len(states))
                 except cvxpy.error.SolverError:
                     out.count('solver_failed')
                     continue
-                for (row, rho), a in zip(states, acc):
-                    if bool(a):
-                        continue
-                    # re-examine with the boundary SDP along the state's own direction (solver band of DESIGN 3.2)
-                    nrm = gm_norm(rho)
-                    try:
-                        b = float(E.get_ABk_symmetric_extension_boundary(rho, dims, kk, use_boson=boson, use_tqdm=False))
-                    except cvxpy.error.SolverError:
-                        out.count('solver_failed')
-                        continue
-                    if b < nrm * (1 - SOLVER_TOL) - SOLVER_TOL:
-                        out.violation('%s/rejected_by_%d_extension_test' % (kind, kk),
-                                      '%s state (which has a %s extension by construction) is rejected by is_ABk_symmetric_ext(k=%d, boson=%s); boundary along its direction %.6f < its norm %.6f'
-                                      % (type(model).__name__, 'separable' if kind == 'inner_cha' else '%d-bosonic' % case['k'], kk, boson, b, nrm), dims=dims, rho=rho)
-                    else:
-                        out.count('feasibility_sdp_rejects_within_solver_band')
+                verdicts = [('is_ABk_symmetric_ext(k=%d, boson=%s, ppt=%s)' % (kk, boson, ppt), '%d_extension_test%s%s' % (kk, '' if boson == (kind == 'inner_pureb') else ('_boson' if boson else '_plain'), '_ppt' if ppt else ''), acc)]
+                if dims == (2, 2) and kk >= 2 and not boson and not ppt and (kind != 'inner_cha' or (env.tier != 'quick' and case['num_state'] is None)):
+                    # the textbook formulation (full AB^k operator with explicit swap constraints) on the same states
+                    for ik in ('2d', '1d'):
+                        try:
+                            nv = [E.is_ABk_symmetric_ext_naive(rho, dims, kk, index_kind=ik) for row, rho in states]
+                            out.trans(len(states))
+                        except cvxpy.error.SolverError:
+                            out.count('solver_failed')
+                            continue
+                        if not all(isinstance(x, tuple) and len(x) == 2 and ((x[1] is None) == (not x[0])) and (x[1] is None or np.shape(x[1]) == (dA * dB ** kk,) * 2) for x in nv):
+                            out.violation('is_ABk_symmetric_ext_naive/layout', 'must return (bool, extension of shape (dA dB^k, dA dB^k) or None)', dims=dims, k=kk, index_kind=ik)
+                            continue
+                        verdicts.append(("is_ABk_symmetric_ext_naive(k=%d, '%s')" % (kk, ik), 'naive_%s_%d_extension_test' % (ik, kk), np.array([bool(x[0]) for x in nv])))
+                        out.count('naive_formulation_compared', len(states))
+                for what, keypart, acc in verdicts:
+                    for (row, rho), a in zip(states, acc):
+                        if bool(a):
+                            continue
+                        # re-examine with the boundary SDP along the state's own direction (solver band of DESIGN 3.2)
+                        nrm = gm_norm(rho)
+                        try:
+                            b = float(E.get_ABk_symmetric_extension_boundary(rho, dims, kk, use_ppt=ppt, use_boson=boson, use_tqdm=False))
+                        except cvxpy.error.SolverError:
+                            out.count('solver_failed')
+                            continue
+                        if b < nrm * (1 - SOLVER_TOL) - SOLVER_TOL:
+                            out.violation('%s/rejected_by_%s' % (kind, keypart),
+                                          '%s state (which has a %s extension by construction) is rejected by %s; boundary along its direction %.6f < its norm %.6f'
+                                          % (type(model).__name__, made, what, b, nrm), dims=dims, rho=rho)
+                        else:
+                            out.count('feasibility_sdp_rejects_within_solver_band')
         out.trace()
         out.sample = {'kind': kind, 'dims': list(dims), 'lattice_points': len(pts), 'parameters': n}
     else:
